@@ -378,7 +378,7 @@ PROPS["C02"]["overlay_files"] = SEM_OVERLAY
 # ---------------- shuttle-std: C04 / C05 / C06 ----------------
 STD_OVERLAY = SEM_OVERLAY + ["shuttle-std/src/sync/mutex.rs.append.rs", "shuttle-std/src/sync/rwlock.rs.append.rs",
                              "shuttle-std/src/sync/atomic/int.rs.append.rs", "shuttle-std/src/sync/mpsc.rs.append.rs",
-                             "shuttle-std/src/sync/condvar.rs.append.rs"]
+                             "shuttle-std/src/sync/condvar.rs.append.rs", "shuttle-std/src/sync/barrier.rs.append.rs"]
 MUTEX = "shuttle-std/src/sync/mutex.rs"
 RWLOCK = "shuttle-std/src/sync/rwlock.rs"
 ATOMIC = "shuttle-std/src/sync/atomic"
@@ -476,11 +476,19 @@ CVH = [
          "every current waiter gets the fresh epoch at the tail of its list and becomes runnable; next_epoch + 1; one choice point",
          [CONDVAR + "::Condvar::notify_one"], "2 waiters"),
 ]
+CVH += [
+    KSTD(Kb, "C05.barrier.last_arrival_releases", "c05_barrier_last_arrival_releases",
+         "the arrival completing the group: exactly one choice point BEFORE any effect; epoch+1, waiter set emptied, exactly the group released, "
+         "exactly one leader token taken by the first task to run", ["shuttle-std/src/sync/barrier.rs::Barrier::wait"], "bound 2"),
+    KSTD(Kb, "C05.barrier.early_arrival_blocks", "c05_barrier_early_arrival_blocks",
+         "an arrival that does not complete the group registers and blocks; the pre-block choice point is omitted only when waiters + 1 < bound",
+         ["shuttle-std/src/sync/barrier.rs::Barrier::wait"], "bound 2", tier="thorough"),
+]
 PROPS["C05"]["kani"] += CVH
 PROPS["C05"]["overlay_files"] = STD_OVERLAY
 PROPS["C05"]["assumptions"] += [A_TLS, A_HEAP, A_SWITCH,
                                 "environment at the choice point inside Condvar::wait: the waiter table is set to a configuration two notify_one calls can produce (rely)"]
-PROPS["C05"]["not_decided"] = ["Barrier (HashSet of waiters) and Once (closure under a Mutex across coroutine switches): not brought under contract",
+PROPS["C05"]["not_decided"] = ["Barrier beyond bound 2 and Once (closure under a Mutex across coroutine switches): not brought under contract",
                                "`always does release a waiter` as liveness"]
 PROPS["C05"]["scope"] = "park/unpark token machine complete over all states (K); Condvar epoch bookkeeping on the real code (Kb)"
 
